@@ -306,9 +306,12 @@ impl StateModel {
         distance: &Distance,
         from_unit: &DistanceUnit,
     ) -> Result<(), StateModelError> {
-        let prev_distance = self.get_distance(state, name, from_unit)?;
-        let next_distance = prev_distance + *distance;
-        self.set_distance(state, name, &next_distance, from_unit)
+        // add in the feature's own unit: converting the accumulated value to the caller's unit
+        // and back would scale it by the unit round-trip error on every call
+        let to_unit = self.get_feature(name)?.get_distance_unit()?;
+        let prev_distance: Distance = self.get_state_variable(state, name)?.into();
+        let next_distance = prev_distance + from_unit.convert(distance, &to_unit);
+        self.set_distance(state, name, &next_distance, &to_unit)
     }
 
     /// adds a time value with time unit to this feature vector
@@ -319,9 +322,12 @@ impl StateModel {
         time: &Time,
         from_unit: &TimeUnit,
     ) -> Result<(), StateModelError> {
-        let prev_time = self.get_time(state, name, from_unit)?;
-        let next_time = prev_time + *time;
-        self.set_time(state, name, &next_time, from_unit)
+        // add in the feature's own unit: converting the accumulated value to the caller's unit
+        // and back would scale it by the unit round-trip error on every call
+        let to_unit = self.get_feature(name)?.get_time_unit()?;
+        let prev_time: Time = self.get_state_variable(state, name)?.into();
+        let next_time = prev_time + from_unit.convert(time, &to_unit);
+        self.set_time(state, name, &next_time, &to_unit)
     }
 
     /// adds a energy value with energy unit to this feature vector
@@ -332,9 +338,12 @@ impl StateModel {
         energy: &Energy,
         from_unit: &EnergyUnit,
     ) -> Result<(), StateModelError> {
-        let prev_energy = self.get_energy(state, name, from_unit)?;
-        let next_energy = prev_energy + *energy;
-        self.set_energy(state, name, &next_energy, from_unit)
+        // add in the feature's own unit: converting the accumulated value to the caller's unit
+        // and back would scale it by the unit round-trip error on every call
+        let to_unit = self.get_feature(name)?.get_energy_unit()?;
+        let prev_energy: Energy = self.get_state_variable(state, name)?.into();
+        let next_energy = prev_energy + from_unit.convert(energy, &to_unit);
+        self.set_energy(state, name, &next_energy, &to_unit)
     }
 
     pub fn set_distance(
